@@ -138,9 +138,8 @@ structure St where
   mon : Mon := {}
   /-- sessions that were given a second address (KF-submgr-reassign-leak) / while their termination was in
       progress (KF-submgr-assign-race), with the addresses involved -/
-  reassigned : List Nat := []
-  raced : List Nat := []
-  tainted : List Nat := []
+  reassigned : List (Nat × Nat) := []     -- (session, address stranded by a re-assignment)
+  raced : List (Nat × Nat) := []          -- (session, address stranded by an assignment during its termination)
   v6 : Bool := false
 
 def step (st : St) (toks : List String) (impl : String) : St × LineResult :=
@@ -165,30 +164,33 @@ where
   go (st : St) (m : M) (op : Op) (impl : String) : St × LineResult :=
     let (m', r) := SubMgr.step m op
     let (mon', vs) := monitor st.mon op impl
-    -- exclusion clauses of the two recorded findings: decided on the MODEL state before the op
+    -- exclusion clauses of the two recorded findings.  Both strand ONE address of ONE session: the pair (session, address)
+    -- is recorded when the finding's mechanism occurs and only a `residue` verdict about exactly that pair is attributed:
+    --   reassign-leak: AssignAddress on a session that holds an address → the address held BEFORE the call is never released
+    --   assign-race:   AssignAddress while that session's termination is parked → the NEW address is never released
+    -- a pair is dropped as soon as the implementation no longer shows the address as handed to that session.
+    let own := fun (mm : M) (n : Nat) => (List.filter (fun (p : Nat × Nat) => p.2 == n) mm.owner).map (fun (p : Nat × Nat) => p.1)
     let st1 := match op with
       | .assign n =>
         if SubMgr.hasAddr m n then
           let parkedNow := List.any m.calls (fun (p : Nat × Nat × Nat) => p.2.1 == n)
-          let own := fun (mm : M) => (List.filter (fun (p : Nat × Nat) => p.2 == n) mm.owner).map (fun (p : Nat × Nat) => p.1)
-          let addrs := own m ++ own m'
-          { st with reassigned := if parkedNow then st.reassigned else n :: st.reassigned,
-                    raced := if parkedNow then n :: st.raced else st.raced,
-                    tainted := addrs ++ st.tainted }
+          if parkedNow then
+            { st with raced := ((own m' n).filter fun a => !(own m n).contains a).map (fun a => (n, a)) ++ st.raced }
+          else
+            { st with reassigned := (own m n).map (fun a => (n, a)) ++ st.reassigned }
         else st
       | _ => st
+    let heldNow := parsePairsNS (field impl "held")     -- (address, session) as the implementation shows them
+    let still := fun (p : Nat × Nat) => heldNow.contains (p.2, p.1)
+    let st1 := if !(impl.contains "held=") then st1 else   -- (an answer without a snapshot says nothing)
+      { st1 with raced := st1.raced.filter still, reassigned := st1.reassigned.filter still }
     let clause := fun (v : V) =>
-      -- the two recorded findings strand an address (and its index entry): only those verdicts can be theirs; a
-      -- double release or a double end is never excused (fix ac0cfa4 closed the path from the race to them)
-      if v.name != "residue" && v.name != "index-mismatch" then "none" else
-      let bySess := match v.sess with
-        | some n => if st1.raced.contains n then "KF-submgr-assign-race"
-                    else if st1.reassigned.contains n then "KF-submgr-reassign-leak" else "none"
-        | none => "none"
-      if bySess != "none" then bySess else
-      match v.addr with
-      | some a => if st1.tainted.contains a then (if st1.raced.isEmpty then "KF-submgr-reassign-leak" else "KF-submgr-assign-race") else "none"
-      | none => "none"
+      if v.name != "residue" then "none" else
+      match v.sess, v.addr with
+      | some n, some a =>
+        if st1.raced.contains (n, a) then "KF-submgr-assign-race"
+        else if st1.reassigned.contains (n, a) then "KF-submgr-reassign-leak" else "none"
+      | _, _ => "none"
     ({ st1 with model := some m', mon := mon' },
      { modelObs := showRes op (if st.v6 && r == .exhausted then .ok else r) m', viols := vs.map fun v => (v.name, clause v, v.detail) })
 
